@@ -42,28 +42,34 @@ def flagAlong (tab : Slot → Pass) : Bool → Path → Bool
   | op, (s, _) :: p => flagAlong tab (flag (tab s) op) p
 
 /-- the names tailrec.c's lookup sees at the end of a path -/
-def boundAlong : List Name → Expr → Path → List Name
-  | bound, _, [] => bound
-  | bound, e, (s, i) :: p =>
+def seenAlong : List Name → List Name → Expr → Path → List Name
+  | seen, _, _, [] => seen
+  | seen, pend, e, (s, i) :: p =>
     match kid e s i with
-    | none => bound
-    | some c => boundAlong (cBinders e s ++ bound) c p
+    | none => seen
+    | some c =>
+      if opensTable s then seenAlong (cBinders e s ++ pend ++ seen) [] c p
+      else seenAlong seen (hiddenBinders e s i ++ pend) c p
 
 /-- `markedAt` unfolded: the node exists, the flag that arrives is ADD, and the node passes the retagging test -/
-theorem markedAt_iff (tab : Slot → Pass) (self : Name) (p : Path) : ∀ (bound : List Name) (op : Bool) (e : Expr),
-    markedAt tab self bound op e p = true ↔
-      ∃ c, sub e p = some c ∧ flagAlong tab op p = true ∧ isSelfCall self (boundAlong bound e p) c = true := by
+theorem markedAt_iff (tab : Slot → Pass) (self : Name) (p : Path) : ∀ (seen pend : List Name) (op : Bool) (e : Expr),
+    markedAt tab self seen pend op e p = true ↔
+      ∃ c, sub e p = some c ∧ flagAlong tab op p = true ∧ isSelfCall self (seenAlong seen pend e p) c = true := by
   induction p with
   | nil =>
-    intro bound op e
-    simp [markedAt, sub, flagAlong, boundAlong]
+    intro seen pend op e
+    simp [markedAt, sub, flagAlong, seenAlong]
   | cons st p ih =>
-    intro bound op e
+    intro seen pend op e
     obtain ⟨s, i⟩ := st
-    simp only [markedAt, sub, flagAlong, boundAlong]
+    simp only [markedAt, sub, flagAlong, seenAlong]
     cases hk : kid e s i with
     | none => simp
-    | some c => simp only []; exact ih _ _ _
+    | some c =>
+      simp only []
+      split
+      · exact ih _ _ _ _
+      · exact ih _ _ _ _
 
 theorem flagAlong_false (tab : Slot → Pass) (p : Path) (h : ∀ st ∈ p, tab st.1 ≠ .add) : flagAlong tab false p = false := by
   induction p with
@@ -151,25 +157,43 @@ theorem cBinders_tail (e : Expr) (s : Slot) (i : Nat) (hs : specTail s = true) (
     x ∈ scopeStep e s i := by
   cases s <;> simp [specTail] at hs <;> cases e <;> simp_all [cBinders, scopeStep]
 
+/-- the names a tail child's construct keeps in a table of its own are in lexical scope of the child -/
+theorem hiddenBinders_tail (e : Expr) (s : Slot) (i : Nat) (hs : specTail s = true) (x : Name) (hx : x ∈ hiddenBinders e s i) :
+    x ∈ scopeStep e s i := by
+  cases s <;> simp [specTail] at hs <;> cases e <;> simp_all [hiddenBinders, scopeStep]
+  rename_i g _ _
+  cases g <;> simp_all [hiddenBinders, scopeStep]
+
 /-- along a TAIL path the marker's lookup sees no more than the names in lexical scope -/
-theorem boundAlong_tail (p : Path) : ∀ (bound : List Name) (e : Expr), (∀ st ∈ p, specTail st.1 = true) →
-    ∀ x, x ∈ boundAlong bound e p → x ∈ bound ∨ x ∈ tailScope e p := by
+theorem seenAlong_tail (p : Path) : ∀ (seen pend : List Name) (e : Expr), (∀ st ∈ p, specTail st.1 = true) →
+    ∀ x, x ∈ seenAlong seen pend e p → x ∈ seen ∨ x ∈ pend ∨ x ∈ tailScope e p := by
   induction p with
-  | nil => intro bound e _ x hx; exact Or.inl hx
+  | nil => intro seen pend e _ x hx; exact Or.inl hx
   | cons st p ih =>
-    intro bound e hp x hx
+    intro seen pend e hp x hx
     obtain ⟨s, i⟩ := st
-    simp only [boundAlong, tailScope] at hx ⊢
+    simp only [seenAlong, tailScope] at hx ⊢
     cases hk : kid e s i with
     | none => rw [hk] at hx; exact Or.inl hx
     | some c =>
       rw [hk] at hx
-      simp only []
+      simp only [] at hx ⊢
       have hs : specTail s = true := hp (s, i) (by simp)
-      rcases ih _ c (fun st hst => hp st (by simp [hst])) x hx with h | h
-      · rcases List.mem_append.mp h with h | h
-        · exact Or.inr (List.mem_append.mpr (Or.inr (cBinders_tail e s i hs x h)))
+      have hp' : ∀ st ∈ p, specTail st.1 = true := fun st hst => hp st (by simp [hst])
+      split at hx
+      · rcases ih _ _ c hp' x hx with h | h | h
+        · rcases List.mem_append.mp h with h | h
+          · rcases List.mem_append.mp h with h | h
+            · exact Or.inr (Or.inr (List.mem_append.mpr (Or.inr (cBinders_tail e s i hs x h))))
+            · exact Or.inr (Or.inl h)
+          · exact Or.inl h
+        · cases h
+        · exact Or.inr (Or.inr (List.mem_append.mpr (Or.inl h)))
+      · rcases ih _ _ c hp' x hx with h | h | h
         · exact Or.inl h
-      · exact Or.inr (List.mem_append.mpr (Or.inl h))
+        · rcases List.mem_append.mp h with h | h
+          · exact Or.inr (Or.inr (List.mem_append.mpr (Or.inr (hiddenBinders_tail e s i hs x h))))
+          · exact Or.inr (Or.inl h)
+        · exact Or.inr (Or.inr (List.mem_append.mpr (Or.inl h)))
 
 end Never.Src.Tail
